@@ -101,12 +101,14 @@ func (s *socket) SendMsg(m *protocol.Message) error {
 }
 
 func (s *socket) RecvMsg() (*protocol.Message, error) {
+	timeQ := nilQ
+	s.Lock()
+	if s.recvExpire > 0 {
+		timeQ = time.After(s.recvExpire)
+	}
+	s.Unlock()
 	for {
-		timeQ := nilQ
 		s.Lock()
-		if s.recvExpire > 0 {
-			timeQ = time.After(s.recvExpire)
-		}
 		closeQ := s.closeQ
 		recvQ := s.recvQ
 		sizeQ := s.sizeQ
